@@ -193,6 +193,10 @@ func (mgr *GCMgr) gc(bkt *Bucket, startChunkID, endChunkID int, merge bool) {
 	gc := &bkt.GCHistory[len(bkt.GCHistory)-1]
 	// add gc to mgr's stat map
 	mgr.mu.Lock()
+	if pending, ok := mgr.stat[bkt]; ok && pending.CancelFlag {
+		// cancelled between registration (HStore.GC) and the start of this pass
+		gc.CancelFlag = true
+	}
 	mgr.stat[bkt] = gc
 	mgr.mu.Unlock()
 	gc.Running = true
